@@ -38,11 +38,27 @@ _START = threading.Lock()
 
 
 def tlc_staggered(chk, *a, **kw):
-    """Check.tlc numbers its scratch files in its first statements: concurrent calls start 0.5 s apart"""
+    """Check.tlc numbers its scratch files (trace file, metadir) from a counter in its first statements; calls from
+    several threads are therefore started one after the other: the next one may start when TLC's metadir of this one
+    exists (or the call has ended)."""
+    import glob
+
     _START.acquire()
-    threading.Timer(0.5, _START.release).start()
+    before = set(glob.glob(os.path.join(chk.work, "m*")))
+    done = threading.Event()
+
+    def release():
+        t0 = time.time()
+        while not done.is_set() and time.time() - t0 < 120 and not (set(glob.glob(os.path.join(chk.work, "m*"))) - before):
+            time.sleep(0.2)
+        _START.release()
+
+    threading.Thread(target=release, daemon=True).start()
     kw.setdefault("env", JVM_ENV)
-    return chk.tlc(*a, **kw)
+    try:
+        return chk.tlc(*a, **kw)
+    finally:
+        done.set()
 
 
 def gen_payloads(r):
@@ -435,7 +451,7 @@ def run(chk):
         if "mc" in PARTS:
             with open(fn, "w") as f:
                 json.dump({"graphs": graphs, "states": states}, f)
-        else:
+        elif "pack" in PARTS or "split" in PARTS:
             with open(fn) as f:
                 d = json.load(f)
             graphs, states = d["graphs"], d["states"]
